@@ -1773,13 +1773,28 @@ class Gen:
         keyish = [c for c in st.cols if st.ci[c].kind in ("str", "int", "bool") and not st.ci[c].uniq]
         if not keyish and r.random() < 0.5:
             keyish = [c for c in st.cols if not st.ci[c].uniq]
-        if r.random() < 0.15 or not keyish:
+        # a window right after a window: often the SAME partition with the order columns permuted or one reversal
+        # toggled (the builder merges consecutive windowed extends only for identical window specifications)
+        prev = st.last if (st.last and st.last.get("windowed") and "part" in st.last) else None
+        sibling = False
+        if prev and r.random() < 0.35 and all(c in st.cols for c in prev["part"] + prev["order"]) \
+                and not (set(prev["targets"]) & set(prev["part"] + prev["order"])):
+            part, order, reverse = list(prev["part"]), list(prev["order"]), list(prev["reverse"])
+            mode = r.random()
+            if len(order) >= 2 and mode < 0.5:
+                order = order[::-1]
+            elif order and mode < 0.8:
+                reverse = [c for c in reverse if c != order[0]] if order[0] in reverse else reverse + [order[0]]
+            ordered = bool(order)
+            sibling = True
+        elif r.random() < 0.15 or not keyish:
             part = []
         else:
             part = self.sample(keyish, 1, r.choice([1, 1, 2, 3]))
-        ordered = r.random() < 0.55
-        order, reverse = [], []
-        if ordered:
+        if not sibling:
+            ordered = r.random() < 0.55
+            order, reverse = [], []
+        if ordered and not sibling:
             uq = [c for c in st.uniq_cols() if c not in part]
             if o["total_order"] and not uq:
                 ordered = False
@@ -1827,7 +1842,8 @@ class Gen:
         ci = {c: (newci[c] if c in newci else st.ci[c]) for c in cols}
         step = {"call": "extend", "ops": ops, "partition_by": (part if part else 1), "order_by": (order or None),
                 "reverse": (reverse or None)}
-        st.push(step, cols, ci, {"call": "extend", "windowed": True, "targets": targets, "ordered": ordered})
+        st.push(step, cols, ci, {"call": "extend", "windowed": True, "targets": targets, "ordered": ordered,
+                                 "part": list(part), "order": list(order), "reverse": list(reverse)})
         return True
 
     # ---- project -------------------------------------------------------------------------------
@@ -2229,6 +2245,10 @@ class Gen:
             if lc == "extend" and not st.last.get("windowed") and r.random() < o["extend_after_extend"] * 0.6:
                 if self.step_extend(st):
                     return "extend"
+            if lc == "extend" and st.last.get("windowed") and (allow is None or "wextend" in allow) \
+                    and r.random() < 0.3 * min(1.0, o["window"]):
+                if self.step_wextend(st):
+                    return "wextend"
         w = dict(STEP_WEIGHTS)
         w["wextend"] *= o["window"]
         w["convert_records"] *= o["convert_records"]
